@@ -8,7 +8,10 @@ pointer arithmetic, `read`/`write`, or transmute of a parameter into a reference
 (ii) ownership: `Box::from_raw` is called only by AMresultFree (under a null test) and `Box::into_raw` only by the
 two `From<..> for *mut ..` conversions, so every owning pointer handed to C has exactly one release path;
 (iii) who-may-dereference: raw pointers stored inside wrapper structs are dereferenced only in the reviewed
-accessor functions (a new deref site is reported).
+accessor functions (a new deref site is reported);
+(iv) view caches are fill-once: a `&self` method that stores into an interior cache (`RefCell<Option<..>>` field) whose
+buffer is handed to C as an AMbyteSpan / pointer does so only on the None arm of a test of that same cache — replacing a
+filled cache frees the buffer an earlier span points into while the owning AMresult is still alive.
 Not decided: lifetime validity of the stored pointers (they borrow from the owning AMresult), leak-freedom of
 arbitrary call sequences, and agreement of results with the Rust API.
 """
@@ -80,6 +83,7 @@ def run(ctx):
     ctx.rule("R14-deref", "direct dereference of a parameter is edge-dominated by is_null(param) == false")
     ctx.rule("R14-own", "who-may-call Box::from_raw / Box::into_raw")
     ctx.rule("R14-internal", "who-may-dereference stored raw pointers")
+    ctx.rule("R14-cache", "Option::insert / replace / take on an interior cache field of &self is edge-dominated by the None arm of a discriminant test of the same field")
     f = ctx.facts()
     ext = sorted(p for p, r in f.fns.items() if r["ckey"][0] == CRATE and (r.get("abi") or "").startswith("C"))
     ctx.floor("extern \"C\" functions in automerge-c", len(ext), 160)
@@ -162,3 +166,41 @@ def run(ctx):
     for p in sorted(found):
         ok = p in {norm_fn(x) for x in INTERNAL_DEREF_OK}
         ctx.ob("R14-internal", p, ok, "", "reviewed accessor" if ok else "new function dereferencing a stored raw pointer (not in the reviewed set)", via="table:accessor of a wrapper whose pointer is set at construction from data owned by the enclosing AMresult" if ok else None)
+    # ---- view caches are fill-once
+    n_cache = 0
+    for p, r in sorted(f.fns.items()):
+        if r["ckey"][0] != CRATE:
+            continue
+        sites = [(bi, t) for bi, t in f.calls(r) if norm_fn(t.get("fn")) in ("core::option::Option::insert", "core::option::Option::replace", "core::option::Option::take", "core::option::Option::get_or_insert_with")]
+        if not sites:
+            continue
+        b = cfg.body(r)
+        if not b.local_ty(1).startswith("&") or b.local_ty(1).startswith("&mut"):
+            continue
+
+        def self_fields(op_or_local):
+            pv = b.provenance(op_or_local, through_calls=True)
+            out = set()
+            for l, pr in pv.places:
+                o = b.origin(l, pr)
+                if o[0] == 1:
+                    out |= {e for e in o[1] if e.startswith(".")}
+            return out
+        for k, (bi, t) in util.ordinal_keys(sites, lambda it: "%s|%s" % (norm_fn(p), norm_fn(it[1]["fn"]).split("::")[-1])):
+            flds = self_fields(t["args"][0])
+            if not flds:
+                continue
+            n_cache += 1
+            if norm_fn(t["fn"]).endswith("get_or_insert_with"):
+                ctx.ob("R14-cache", k, True, t["sp"], "get_or_insert_with fills only an empty cache")
+                continue
+            edges = []
+            for sb, sw in b.switches():
+                src = b.bool_operand_source(sw["op"])
+                if src and src["kind"] == "discr" and util.base_ty(src.get("ty") or "") == "core::option::Option" and self_fields(src["origin"][0]) & flds:
+                    none = [tb for v, tb in sw["targets"] if (src["vars"] or {}).get(v) == "None"]
+                    edges.append((sb, none[0] if none else sw["otherwise"]))
+            ok = bool(edges) and b.edges_dominate(edges, bi)
+            ctx.ob("R14-cache", k, ok, t["sp"], "cache %s filled only while empty" % sorted(flds) if ok else
+                   "the cache %s is replaced on every call: the buffer behind a span returned earlier is freed while its AMresult is alive" % sorted(flds))
+    ctx.floor("stores into interior view caches", n_cache, 5)
